@@ -19,7 +19,7 @@ import impl
 from common import driver_batch
 
 ID = 'C19'
-EXTRA_MODULES = ['Mistletoe.Proofs.Outline', 'Mistletoe.Proofs.TocPlain', 'propsdriver']
+EXTRA_MODULES = ['Mistletoe.Proofs.Outline', 'Mistletoe.Proofs.TocPlain', 'Mistletoe.Proofs.TocEndToEnd', 'propsdriver']
 RULE = ('generated outline documents (first heading shallowest, never deepening by more than one; plain-word titles; ATX '
         'with/without closing #s and setext; at top level, inside block quotes and list items; paragraphs, code and '
         'lists in between) x depth 1-6 x omit_title x filter predicates (substring filters); plus spec/mutated documents '
@@ -27,7 +27,12 @@ RULE = ('generated outline documents (first heading shallowest, never deepening 
 TRUSTED = ['filter_conds are modelled as substring predicates (the harness passes exactly such predicates)']
 ASSUMPTIONS = ['a document with no qualifying heading has no table of contents to check (toc raises IndexError there: '
                'outside "documents whose headings form an outline")']
-PARTIAL = ['nesting of the toc list by level is proved (C19_toc_nested) for heading lists that are outlines with plain titles '
+PARTIAL = ['the property as stated is proved END TO END (Props/C19_EndToEnd.lean: text -> document -> _headings -> list lines -> one '
+           'List nested as the outline of the qualifying headings, in document order, with the plain text) under three decidable '
+           'hypotheses on the parsed tree - headings made of raw text / emphasis / strong / strikethrough / code / escapes free of '
+           '<, >, &; the qualifying headings form an outline; their texts begin with a letter - and re-checked on the real TocRenderer '
+           'each run (c19.theorem.document); the inline phase on the titles of the toc list is not part of the theorem',
+           'nesting of the toc list by level is proved (C19_toc_nested) for heading lists that are outlines with plain titles '
            '(a letter first, no newline); titles with markup or another first character, and qualifying lists that are not '
            'outlines, are explored on the implementation against the outline oracle only',
            'plain-text clause: proved for titles made of raw text, emphasis, strong, strikethrough, inline code and escapes whose '
@@ -205,6 +210,7 @@ def units(ctx):
     for case, e, m in zip(meta, exp, model):
         ctx.compare('toc', case, m.get('headings') if isinstance(m, dict) else m, e)
     theorem_unit(ctx)
+    theorem_unit_document(ctx)
 
 
 def real_toc_of(hs):
@@ -244,6 +250,44 @@ def theorem_unit(ctx):
             real = {'raises': type(e).__name__}
         ctx.compare('c19.theorem', {'headings': hs}, forest_tree(r['forest']), real, kind='n%d' % len(hs))
     ctx.notes.append('of %d generated heading lists %d satisfy the hypotheses of C19_toc_nested' % (len(lists), n_ok))
+
+
+def theorem_unit_document(ctx):
+    """`C19_text_toc_current` on the real TocRenderer: documents whose headings (plain text, also with emphasis / code spans)
+    sit at top level, in block quotes and in list items; the model parses the text and evaluates the hypotheses; the real
+    `_headings` and the real `toc` must be what the theorem concludes"""
+    from mistletoe.contrib.toc_renderer import TocRenderer
+    rng = ctx.rng('theorem-doc')
+    reqs = []
+    for _ in range(ctx.budget(700, 7000)):
+        hs = outline(rng)
+        if rng.random() < 0.3:       # inline formatting in a title: raw text, emphasis, strong, code
+            i = rng.randrange(len(hs))
+            hs[i] = (hs[i][0], hs[i][1] + rng.choice([' *em*', ' **st** x', ' `code`', ' a\\*b', ' ~~s~~']))
+        if rng.random() < 0.12:      # something outside the hypotheses: the evaluation must reject it
+            i = rng.randrange(len(hs))
+            hs[i] = rng.choice([(hs[i][0] + 2, hs[i][1]), (hs[i][0], hs[i][1] + ' <b>'), (hs[i][0], hs[i][1] + ' [l](u)')])
+        reqs.append({'op': 'c19.document', 'text': outline_doc(rng, hs), 'depth': rng.randint(1, 6), 'omit_title': rng.random() < 0.5})
+    res = common.driver_batch(reqs, binary=common.PROPS_DRIVER)
+    n_ok = 0
+    for q, r in zip(reqs, res):
+        if not (isinstance(r, dict) and r.get('ok')):
+            continue
+        n_ok += 1
+        try:
+            with impl.time_limit(20):
+                with TocRenderer(depth=q['depth'], omit_title=q['omit_title']) as rd:
+                    from mistletoe import Document
+                    rd.render(Document(q['text']))
+                    real = {'headings': [[l, t] for l, t in rd._headings], 'toc': toc_tree(rd.toc)}
+        except Exception as e:
+            real = {'raises': type(e).__name__}
+        finally:
+            impl.reset_library()
+        ctx.compare('c19.theorem.document', {'text': q['text'], 'depth': q['depth'], 'omit_title': q['omit_title']},
+                    {'headings': r['headings'], 'toc': forest_tree(r['forest'])}, real, kind='n%d' % len(r['headings']))
+    ctx.notes.append('of %d generated documents %d satisfy the hypotheses of C19_text_toc_current (plain headings, outline, plain titles)'
+                     % (len(reqs), n_ok))
 
 
 def explore(ctx, seeds):
